@@ -52,6 +52,43 @@ impl io::Write for FailWriter {
 
 impl log4rs::encode::Write for FailWriter {}
 
+/// refuses exactly its `refuse`-th write call (WouldBlock), accepts everything else
+struct TransientWriter {
+    out: Vec<u8>,
+    calls: usize,
+    refuse: usize,
+}
+
+impl io::Write for TransientWriter {
+    fn write(&mut self, buf: &[u8]) -> io::Result<usize> {
+        self.calls += 1;
+        if self.calls == self.refuse {
+            return Err(io::Error::new(io::ErrorKind::WouldBlock, "try again"));
+        }
+        self.out.extend_from_slice(buf);
+        Ok(buf.len())
+    }
+    fn flush(&mut self) -> io::Result<()> {
+        Ok(())
+    }
+}
+
+impl log4rs::encode::Write for TransientWriter {}
+
+/// the line with the value of its "time" member blanked (two encodes differ in nothing else)
+fn mask_time(line: &[u8]) -> Vec<u8> {
+    let key = b"\"time\":\"";
+    if let Some(p) = line.windows(key.len()).position(|w| w == key) {
+        let start = p + key.len();
+        if let Some(q) = line[start..].iter().position(|b| *b == b'"') {
+            let mut v = line[..start].to_vec();
+            v.extend_from_slice(&line[start + q..]);
+            return v;
+        }
+    }
+    line.to_vec()
+}
+
 fn opt_str(v: &Val) -> Option<String> {
     v.l().first().map(|x| x.str())
 }
@@ -101,8 +138,36 @@ fn work(case: Val) -> Val {
         ),
         n => panic!("unsupported number of message pieces {}", n),
     };
+    // A sink that refuses ONE write call: when encode nevertheless returns Ok, what it wrote must still be
+    // the one complete line (records with MDC entries and a short message only: ~100 write calls).
+    let mut broken = 0u128;
+    if r.is_ok() && !c[7].l().is_empty() && pieces.len() == 1 && w.0.len() < 700 {
+        let clean = mask_time(&w.0);
+        let mut j = 1;
+        loop {
+            let mut tw = TransientWriter { out: Vec::new(), calls: 0, refuse: j };
+            let mut b2 = log::Record::builder();
+            b2.level(lvl)
+                .target(&target)
+                .module_path(module.as_deref())
+                .file(file.as_deref())
+                .line(line);
+            let r2 = enc.encode(&mut tw, &b2.args(format_args!("{}", pieces[0])).build());
+            if tw.calls < j {
+                break; // the record needs fewer write calls than j: every call has been refused once
+            }
+            if r2.is_ok() && mask_time(&tw.out) != clean {
+                broken += 1;
+            }
+            j += 1;
+            if j > 400 {
+                break;
+            }
+        }
+    }
     match r {
-        Ok(()) => Val::L(vec![Val::S(w.0), Val::N(tid as u128), Val::L(order)]),
+        Ok(()) if broken == 0 => Val::L(vec![Val::S(w.0), Val::N(tid as u128), Val::L(order)]),
+        Ok(()) => Val::L(vec![Val::S(w.0), Val::N(tid as u128), Val::L(order), Val::N(broken)]),
         Err(_) => Val::err(1),
     }
 }
